@@ -8,6 +8,7 @@ CONSTANTS
   Filts = {FALSE, TRUE}
   Meds = {FALSE}
   AllowClear = FALSE
+  DeltaOpts = {TRUE}
   AsCoded = TRUE
   Withhold = FALSE
 VIEW View
